@@ -29,6 +29,24 @@ CLAIMED["C07"]=("deviation-bounded exhaustive enumeration of (record, layout, co
 CLAIMED["C13"]=("deviation-bounded exhaustive enumeration (<=1 quick, <=3 thorough) of XMP records x serialisation styles, plus an exhaustive value-length x padding grid; generator cross-checked with encoding/xml",
   "A record of 38 simple and 6 array properties is serialised with every combination of up to 1 (quick) / 3 (thorough) deviations over values, element/attribute form, absence, array sizes, quote character, attribute and element white space (space, LF, tab, CRLF, 37/130/600 blanks), white space before '>', leading junk, unknown properties and namespaces, a second rdf:Description, xap prefixes and neighbour swaps; ParseXmp's result is compared field by field with the record, and with the parse of the opposite (all-element) serialisation. A grid of every value length 1..1600 x padding menu x form checks the look-ahead steps: exact value for lengths <= 1024, error-or-exact beyond, never a wrong value, and the following property must survive.",
   "Trusted: the serialiser (validated per execution by encoding/xml) and the expectation function in c13.go.", "DESIGN.md §6 C13")
+CLAIMED["C01"]=("exhaustive fault-point and malformation enumeration on the real decoders in isolated worker processes: every truncation x terminal answer, every I/O call as fault point, every structural field x malformation menu, every byte substitution, all short strings",
+  "For every seed (generated minimal/rich files of every container in both byte orders, maker-note, item-based HEIF/AVIF, XMP, plus the repository samples) and every accepting entry point: every cut point k in [0,len] with EOF / injected error / data-with-EOF; every Read/Seek/ReadAt call index as a fault point (<=1 quick, <=2 thorough); every structural field of the generated files against a per-kind malformation menu (<=1 / <=2 simultaneously); every single-byte substitution (stride 5 quick, all 255 values thorough); every byte string of length <=2 and every string of length <=3/5 over a 17-symbol alphabet; every canonical header followed by every tail of length <=2/3. Any recovered panic, fatal error, worker death or hang is a violation.",
+  "Trusted: the worker supervision (shared-memory progress record, re-run alone to confirm). Inputs farther than the stated bounds from a well-formed file are not covered.", "DESIGN.md §6 C01")
+CLAIMED["C02"]=("the C01 execution spaces with an instrumented reader as oracle (bytes requested, seek targets, work budget) and a double-confirmed watchdog for CPU-only loops",
+  "The same exhaustive spaces as C01 are executed with a counting reader: the sum of len(p) over all Read/ReadAt calls must stay within 4*len+64KiB and seek targets within 2^40; a reader work budget turns unbounded reading into a deterministic failure; an execution that makes no progress for 20 s in its batch and for 30 s alone (stack-sampled 25 times to name the loop) is reported as non-termination.",
+  "Trusted: the watchdog thresholds (>=10^5 x normal execution time). Super-linear but fast CPU work on <=8 KiB inputs is not distinguished from linear.", "DESIGN.md §6 C02")
+CLAIMED["C14"]=("the C01 execution spaces with the heap-allocation delta of each call as oracle",
+  "Each decode/preview call in the C01 spaces is bracketed by runtime/metrics /gc/heap/allocs:bytes in a single-goroutine worker; the delta must stay within 4 MiB + 16*len. Size fields, counts and lengths of every generated container are driven through their malformation menus (up to 2^32-1 / 2^64-1).",
+  "Trusted: runtime/metrics; the address-space limit on workers that turns a runaway allocation into an attributable crash.", "DESIGN.md §6 C14")
+CLAIMED["C08"]=("exhaustive enumeration of chunking policies and of short-read deviations at every Read call index, compared with the in-memory run",
+  "Every (seed, accepting entry point) is run under 18 uniform chunking policies (max chunk 1..4095, with and without data-with-EOF) and with <=1 (quick) / <=2 (thorough) short-read deviations {1 byte, half, len-1, data-with-EOF} placed at every Read call index; thorough adds every single-field-malformed generated seed under three policies. Value and error string must equal the in-memory run.",
+  "Trusted: readers obey the io.Reader contract. Chunkings needing more than two distinct short reads that no uniform policy produces are not covered.", "DESIGN.md §6 C08")
+CLAIMED["C10"]=("exhaustive enumeration of all marker sequences up to length 2/3 over a 17-symbol segment alphabet x callback behaviours, against the generator's segment table",
+  "Every sequence of up to 2 (quick) / 3 (thorough) segments (JFIF, JFXX, Exif in both byte orders, XMP with 7 packet lengths, XMP extension, ICC, Photoshop, 0xFF runs, nested SOI/EOI, look-alike prefixes, COM, DRI, SOF2, 5000-byte APPn) followed by the image is scanned with every combination of 6 Exif-callback and 7 XMP-callback behaviours; callback order, header fields (byte order, first-IFD offset, absolute TIFF offset, length), the exact bytes readable in each callback, ScanJPEG's return value and the record decoded by the library's own reader are checked.",
+  "Trusted: the JPEG builder's segment table. Fill bytes, multi-segment XMP and under-consuming Exif callbacks are outside the statement.", "DESIGN.md §6 C10")
+CLAIMED["C11"]=("deviation-bounded exhaustive enumeration of CR3 box trees (well-formed and with one overstated/understated size) x callback behaviours with a position oracle on the underlying stream",
+  "The canonical CR3 tree is varied with up to 1 (quick) / 2 (thorough) deviations (payload size menus, skeleton variants, an unknown box at 7 places x 3 sizes, trailing 8/16-byte boxes, any box in 64-bit form, and in the second space any box's size off by a 9-value menu) x both byte orders x 45 callback behaviour combinations. After every top-level call the logical stream position must be the next top-level box; at every callback entry/exit it must not exceed the declared end of the handled box or of any ancestor; callback readers must yield exactly the generator's payload; headers must carry the right directory type; PreviewCR3 and the record decoded through the callbacks must equal what was put in.",
+  "Trusted: the box-tree builder; observation only at callback boundaries and call returns (an over-read inside a box that re-synchronises before any observation point is not visible).", "DESIGN.md §6 C11")
 NOT_YET = {}
 def main():
     props=[json.loads(l) for l in open('/verif/properties.jsonl')]
